@@ -7,7 +7,6 @@ Part 1 (this section): the item accounting. Model: NeoModel/Model/VmAcct (the VM
 vm.go / ref_counter.go / stack.go / slot.go maintain it, `reach` = what a walk finds).
 -/
 import NeoModel.Proofs.VmAcctBase
-import NeoModel.Proofs.VmAcctUnwind
 import NeoModel.Proofs.VmAcctDepth
 import NeoModel.Proofs.VmAcctGasSim
 import NeoModel.Proofs.VmAcctTry
@@ -118,9 +117,11 @@ example : runOps St.init [(.s (.newEmpty .map), none), (.s .dup, none), (.s (.ne
 /-! ## exactness without cycles -/
 
 /-- **refs_exact.** If no cyclic structure was ever built during the run (the heap, garbage
-included, was acyclic before every step and is acyclic now) and exception unwinding never dropped
-an evaluation stack with content, the implementation's counter EQUALS what a walk finds. No other
-hypothesis: any instructions, any arguments. -/
+included, was acyclic before every step and is acyclic now), the implementation's counter EQUALS what a
+walk finds — also after exception unwinding across contexts that own their evaluation stacks (the former
+finding unwind-across-estack, repaired in /repo 65b0965: `handleException` clears the stack a dropped
+context owns; the model's `unwindFrames` does the same). No other hypothesis: any instructions, any
+arguments, any unwinding. -/
 theorem refs_exact (s : St) (h : RunExact s) (ha : Acyclic s.c.heap) : s.c.refs = (s.reach : Int) :=
   VmAcct.refs_exact h ha
 
@@ -137,7 +138,7 @@ example : ∃ s, RunExact s ∧ Acyclic s.c.heap ∧ s.c.refs = 4 ∧ s.reach = 
   have step1 : ∀ s op s', step s op none false = some s' → Acyclic s.c.heap →
       RunExact s → RunExact s' := by
     intro s op s' hs ha hr
-    exact RunExact.step op none false hr ha (by intro r x k c _ _ hu; cases hu) hs
+    exact RunExact.step op none false hr ha hs
   let s1 : St := { St.init with c := { heap := [], refs := 1 }, frames := [{ own := some [.prim], isScript := true, retCount := 1 }] }
   let s2 : St := { St.init with c := { heap := [], refs := 2 }, frames := [{ own := some [.prim, .prim], isScript := true, retCount := 1 }] }
   let s3 : St := { St.init with c := { heap := [], refs := 3 }, frames := [{ own := some [.prim, .prim, .prim], isScript := true, retCount := 1 }] }
@@ -174,7 +175,7 @@ example : ∃ s, RunExact s ∧ Acyclic s.c.heap ∧ s.c.refs = 4 ∧ s.reach = 
   refine ⟨s5, r5, a2, rfl, ?_⟩
   simp [s5, h2, St.init, St.reach, reachFrom, St.roots, Frame.roots, slotItems, walk, Item.cid, chOf, childSum]
 
-/-! ## the two places where the implementation breaks the property -/
+/-! ## the two places where the implementation broke the property (both repaired) -/
 
 /-- DESIGN §6 item 8 as an instruction stream of the model: caller `TRY SYSCALL(load callee)`,
 callee `PUSH1 PUSH2 PUSH3 PUSH0 THROW`, the caller's CATCH receives the exception. -/
@@ -182,85 +183,40 @@ def unwindWitness : List (Op × Option (Nat × Bool)) :=
   [(.nop, none), (.load 0 0, none), (.s (.generic 0 1), none), (.s (.generic 0 1), none), (.s (.generic 0 1), none),
    (.s (.generic 0 1), none), (.throw_, some (1, true))]
 
-/-- FINDING `unwind-across-estack` (negation of "exact without cycles" on a concrete run of covered
-instructions): after the exception crossed a context that owned its evaluation stack the counter
-says 4 while one item is reachable; no compound item exists at all (so the heap is acyclic).
-Soundness (`refs_sound`) covers this run; exactness needs `cleanUnwind`, which it violates. -/
-theorem refs_exact_fails_on_unwind :
-    (runOps St.init unwindWitness).map (fun s => (s.c.refs, s.reach, s.c.heap.length)) = some (4, 1, 0) := by
+/-- the run that exposed the defect `unwind-across-estack`, on the repaired model: after the exception
+crossed a context that owned its evaluation stack, counter = walk = 1 (it was 4 vs 1 before 65b0965). -/
+theorem unwind_witness_after_fix :
+    (runOps St.init unwindWitness).map (fun s => (s.c.refs, s.reach, s.c.heap.length)) = some (1, 1, 0) := by
   simp [runOps, unwindWitness, step, exec, execS, St.init, St.w, St.setW, St.cur, St.setCur, curOf, setCurOf, ok, W.popN,
     W.pushPrims, W.push, W.pop, Ctr.add, Ctr.rem, Ctr.addAll, Ctr.remAll, addW, remW, Item.cid, unwind, unwindFrames,
     unloadSlots, slotItems, St.reach, reachFrom, St.roots, Frame.roots, walk, childSum, maxStackSize, maxInvocationStackSize]
 
-/-! ### … and exactly by how much -/
+/-- the OLD rule of `handleException` (before 65b0965): contexts are unloaded, nothing is removed from a
+dropped evaluation stack. Kept only for the regression example below. -/
+def unwindFramesOld : Nat → List Frame → Ctr → Option (List Frame × Ctr)
+  | 0, fs, c => some (fs, c)
+  | _ + 1, [], _ => none
+  | k + 1, f :: fs, c => unwindFramesOld k fs (unloadSlots f c)
 
-/-- running a list of instructions while collecting the ghost list of dropped stack items -/
-def runOpsG : St → List Item → List (Op × Option (Nat × Bool)) → Option (St × List Item)
-  | s, lk, [] => some (s, lk)
-  | s, lk, (o, u) :: r => match step s o u false with
-    | none => none
-    | some s' => runOpsG s' (lk ++ droppedBy s o u) r
-
-/-- the heap is acyclic before every instruction of the list -/
-def AcycAll : St → List (Op × Option (Nat × Bool)) → Prop
-  | _, [] => True
-  | s, (o, u) :: r => Acyclic s.c.heap ∧ ∀ s1, step s o u false = some s1 → AcycAll s1 r
-
-theorem runG_of_runOpsG : ∀ (ops : List (Op × Option (Nat × Bool))) (s : St) (lk : List Item) (s' : St) (lk' : List Item),
-    RunG s lk → AcycAll s ops → runOpsG s lk ops = some (s', lk') → RunG s' lk' := by
-  intro ops
-  induction ops with
-  | nil => intro s lk s' lk' hr _ h; simp only [runOpsG, Option.some.injEq, Prod.mk.injEq] at h; rw [← h.1, ← h.2]; exact hr
-  | cons a t ih =>
-    intro s lk s' lk' hr hac h
-    obtain ⟨o, u⟩ := a
-    simp only [runOpsG] at h
-    cases hs : step s o u false with
-    | none => simp [hs] at h
-    | some s1 =>
-      simp only [hs] at h
-      exact ih s1 _ s' lk' (RunG.step o u false hr hac.1 hs) (hac.2 s1 hs) h
-
-/-- **refs_exact_unwind.** The exact value of the counter when exception unwinding has dropped
-evaluation stacks: for every run that never builds a cyclic structure (`RunG s lk`: any instructions,
-any arguments; `lk` is the ghost list of the items that were on the evaluation stacks owned by the
-contexts `handleException` unloaded, collected at the moment of unloading), the counter equals what a
-walk from the real roots AND from those dropped items finds. So the over-count of the known finding
-is exactly the dropped stacks' contents (with what only they reach), and any other difference between
-counter and walk is a violation. -/
-theorem refs_exact_unwind (s : St) (lk : List Item) (h : RunG s lk) (ha : Acyclic s.c.heap) :
-    s.c.refs = (reachFrom s.c.heap (s.roots ++ lk) : Int) := VmAcct.refs_exact_unwind h ha
-
-/-- if only primitives were dropped: counter = walk + number of dropped items -/
-theorem refs_exact_unwind_prims (s : St) (lk : List Item) (h : RunG s lk) (ha : Acyclic s.c.heap) (hp : ∀ x ∈ lk, x = .prim) :
-    s.c.refs = (s.reach : Int) + lk.length := VmAcct.refs_exact_unwind_prims h ha hp
+/-- regression example about the old rule (the former FINDING `unwind-across-estack`): unloading the
+callee of the witness (three items left on its own stack) under the old rule leaves the counter at 3 with
+nothing of it reachable; the current rule brings it to 0. -/
+theorem refs_exact_fails_on_unwind :
+    (unwindFramesOld 1 [{ own := some [.prim, .prim, .prim], isScript := true, retCount := 1 }, { own := some [], isScript := true, retCount := 1 }]
+      { heap := [], refs := 3 }).map (fun p => (p.1.length, p.2.refs)) = some (1, 3) ∧
+    (unwindFrames 1 [{ own := some [.prim, .prim, .prim], isScript := true, retCount := 1 }, { own := some [], isScript := true, retCount := 1 }]
+      { heap := [], refs := 3 }).map (fun p => (p.1.length, p.2.refs)) = some (1, 0) := by
+  constructor <;> simp [unwindFramesOld, unwindFrames, unloadSlots, slotItems, Ctr.remAll, remW, Item.cid]
 
 theorem acyclic_nil : Acyclic ([] : Heap) := ⟨fun _ => 0, fun j x hx => by simp [chOf] at hx⟩
 
-set_option maxRecDepth 20000 in
-/-- non-vacuity: the witness of the finding is such a run; its ghost list is the callee's three
-remaining stack items, counter 4 = walk 1 + 3. -/
-example : ∃ s lk, RunG s lk ∧ Acyclic s.c.heap ∧ lk = [.prim, .prim, .prim] ∧ s.c.refs = 4 ∧ s.reach = 1 := by
-  have h : (runOpsG St.init [] unwindWitness).map (fun p => (p.1.c.refs, p.1.reach, p.1.c.heap, p.2)) = some (4, 1, [], [.prim, .prim, .prim]) := by
-    simp [runOpsG, unwindWitness, droppedBy, droppedOf, step, exec, execS, St.init, St.w, St.setW, St.cur, St.setCur, curOf, setCurOf, ok, W.popN,
-      W.pushPrims, W.push, W.pop, Ctr.add, Ctr.rem, Ctr.addAll, Ctr.remAll, addW, remW, Item.cid, unwind, unwindFrames,
-      unloadSlots, slotItems, St.reach, reachFrom, St.roots, Frame.roots, walk, childSum, maxStackSize, maxInvocationStackSize]
-  cases hr : runOpsG St.init [] unwindWitness with
-  | none => simp [hr] at h
-  | some p =>
-    obtain ⟨s, lk⟩ := p
-    simp only [hr, Option.map_some, Option.some.injEq, Prod.mk.injEq] at h
-    refine ⟨s, lk, runG_of_runOpsG unwindWitness St.init [] s lk RunG.init ?_ hr, by rw [h.2.2.1]; exact acyclic_nil, h.2.2.2, h.1, h.2.1⟩
-    simp [AcycAll, unwindWitness, acyclic_nil, step, exec, execS, St.init, St.w, St.setW, St.cur, St.setCur, curOf, setCurOf, ok, W.popN,
-      W.pushPrims, W.push, W.pop, Ctr.add, Ctr.rem, Ctr.addAll, Ctr.remAll, addW, remW, Item.cid, unwind, unwindFrames,
-      unloadSlots, slotItems, maxStackSize, maxInvocationStackSize]
-
 /-! ### evaluation stacks shared between contexts, invocation depth -/
 
-/-- **shared_stack_unwind.** The complement of the finding: CALL* never gives the callee its own
+/-- **shared_stack_unwind.** Which evaluation stacks are shared: CALL* never gives the callee its own
 evaluation stack, a loaded script shares the caller's stack exactly when it is loaded with rvcount = −1
 and the caller's stack is empty after the arguments were taken (vm.go:490), and an exception that
-crosses only contexts sharing the handler's stack drops nothing: the handler continues on the thrower's
+crosses only contexts sharing the handler's stack drops nothing (stacks OWNED by dropped contexts are
+cleared): the handler continues on the thrower's
 stack with the callee's items still there (counted and reachable), under the exception if it is a
 CATCH. -/
 theorem shared_stack_unwind :
@@ -268,7 +224,7 @@ theorem shared_stack_unwind :
     (∀ (s : St) (mode nargs : Nat) (r : Res), exec (.load mode nargs) s = some r →
       ∃ f rest, r.s.frames = f :: rest ∧ (f.own = none ↔ (mode ≠ 0 ∧ s.cur.length = nargs))) ∧
     (∀ (s s' : St) (x : Item) (k : Nat) (c : Bool), unwind s x k c = some s' → (∀ f ∈ s.frames.take k, f.own = none) →
-      s'.cur = (if c then x :: s.cur else s.cur) ∧ droppedOf k s.frames = []) :=
+      s'.cur = (if c then x :: s.cur else s.cur)) :=
   ⟨fun _ _ _ h => call_shares h, fun _ _ _ _ h => load_shares_iff h, fun _ _ _ _ _ h hs => unwind_shared h hs⟩
 
 /-- the corpus case `unwind-shared-estack` as an instruction stream: the callee (loaded with rvcount −1
@@ -279,8 +235,8 @@ def sharedWitness : List (Op × Option (Nat × Bool)) :=
    (.s (.generic 0 1), none), (.throw_, some (1, true))]
 
 theorem shared_witness :
-    (runOpsG St.init [] sharedWitness).map (fun p => (p.1.c.refs, p.1.reach, p.1.cur.length, p.2)) = some (4, 4, 4, []) := by
-  simp [runOpsG, sharedWitness, droppedBy, droppedOf, step, exec, execS, St.init, St.w, St.setW, St.cur, St.setCur, curOf, setCurOf, ok, W.popN,
+    (runOps St.init sharedWitness).map (fun s => (s.c.refs, s.reach, s.cur.length)) = some (4, 4, 4) := by
+  simp [runOps, sharedWitness, step, exec, execS, St.init, St.w, St.setW, St.cur, St.setCur, curOf, setCurOf, ok, W.popN,
     W.pushPrims, W.push, W.pop, Ctr.add, Ctr.rem, Ctr.addAll, Ctr.remAll, addW, remW, Item.cid, unwind, unwindFrames,
     unloadSlots, slotItems, St.reach, reachFrom, St.roots, Frame.roots, walk, childSum, maxStackSize, maxInvocationStackSize]
 
